@@ -5,6 +5,7 @@ import (
 	"bytes"
 	"fmt"
 	"io"
+	"io/fs"
 	"os"
 	"path/filepath"
 	"sort"
@@ -163,6 +164,10 @@ func c05Explore(src *choice.Src) *core.Result {
 				w.short = src.Bool(1, 3)
 			case 1:
 				f.openErr = errSimIO
+				if src.Bool(1, 2) {
+					// the file vanished between the listing and Open: the error every os.Open reports then
+					f.openErr = &fs.PathError{Op: "open", Path: f.path, Err: fs.ErrNotExist}
+				}
 			case 2:
 				f.readErr = src.Intn(len(f.content) + 1)
 			case 3: // the file grew between Lstat and Open
